@@ -8,6 +8,8 @@ SCAN = 'lightmotif/src/scan.rs'
 
 AVX2 = 'lightmotif/src/pli/platform/avx2.rs'
 
+PYLIB = 'lightmotif-py/lightmotif/lib.rs'
+
 MUTANTS = [
     # ---- C05
     dict(id='c05-accept-lowercase', prop='C05', rule='R5.1', file=ABC, old="b'N' => Ok(Nucleotide::N),", new="b'N' | b'n' => Ok(Nucleotide::N),"),
@@ -53,6 +55,18 @@ MUTANTS = [
     dict(id='c08-score-position-wraps', prop='C08', rule='R8.3', file=PWM, old="score = score.saturating_add(row[s[pos + j].as_index()]);", new="score = score.wrapping_add(row[s[pos + j].as_index()]);"),
     dict(id='c08-wrong-row-offset', prop='C08', rule='R8.1', file=PWM, old="((pssm[i][j] - offsets[i]) / factor).ceil() as u8", new="((pssm[i][j] - offsets[0]) / factor).ceil() as u8"),
     dict(id='c08-prefilter-up-threshold', prop='C08', rule='R8.4', file=SCAN, old="best_discrete = self.dm.scale(score);", new="best_discrete = dscore;"),
+    # ---- C18
+    dict(id='c18-raw-index', prop='C18', rule='R18.1', file=PYLIB, old="let row = slf.data.get(index_ as usize);", new="let row = slf.data.get(index as usize);", occ=1),
+    dict(id='c18-scores-no-normalise', prop='C18', rule='R18.2', file=PYLIB, old="        if index < 0 {\n            index += self.scores.max_index() as isize;\n        }\n", new=""),
+    dict(id='c18-bound-not-len', prop='C18', rule='R18.2', file=PYLIB, old="if index < self.scores.max_index() as isize && index >= 0 {", new="if index < (self.scores.matrix().rows() * 32) as isize && index >= 0 {"),
+    dict(id='c18-scoring-shape-swapped', prop='C18', rule='R18.3', file=PYLIB, old="let shape = [rows as Py_ssize_t, cols as Py_ssize_t];\n        let strides = [\n            (stride", new="let shape = [cols as Py_ssize_t, rows as Py_ssize_t];\n        let strides = [\n            (stride"),
+    dict(id='c18-scores-strides-swapped', prop='C18', rule='R18.3', file=PYLIB, old="            std::mem::size_of::<f32>() as Py_ssize_t,\n            (scores.matrix().stride() * std::mem::size_of::<f32>()) as Py_ssize_t,", new="            (scores.matrix().stride() * std::mem::size_of::<f32>()) as Py_ssize_t,\n            std::mem::size_of::<f32>() as Py_ssize_t,"),
+    dict(id='c18-format-d-for-f32', prop='C18', rule='R18.4', file=PYLIB, old='b"f\\0"', new='b"d\\0"', occ=0),
+    dict(id='c18-itemsize-u8-for-f32', prop='C18', rule='R18.4', file=PYLIB, old="(*view).itemsize = std::mem::size_of::<f32>() as isize;", new="(*view).itemsize = std::mem::size_of::<u8>() as isize;", occ=0),
+    dict(id='c18-writable-not-refused', prop='C18', rule='R18.4', file=PYLIB, old="        if (flags & pyo3::ffi::PyBUF_WRITABLE) == pyo3::ffi::PyBUF_WRITABLE {\n            return Err(PyBufferError::new_err(\"Object is not writable\"));\n        }\n", new="", occ=2),
+    dict(id='c18-readonly-zero', prop='C18', rule='R18.4', file=PYLIB, old="(*view).readonly = 1;", new="(*view).readonly = 0;", occ=3),
+    dict(id='c18-len-columns', prop='C18', rule='R18.5', file=PYLIB, old="    pub fn __len__(&self) -> usize {\n        self.data.rows()\n    }", new="    pub fn __len__(&self) -> usize {\n        self.data.columns()\n    }", occ=1),
+    dict(id='c18-dist-len-elems', prop='C18', rule='R18.4', file=PYLIB, old="(*view).len = (array.len() * std::mem::size_of::<f64>()) as isize;", new="(*view).len = array.len() as isize;"),
     # ---- C09
     dict(id='c09-rescale-unguarded', prop='C09', rule='R9.1', file=PWM, old="                    if new_freqs[j] == 0.0 {\n                        row[j] = 0.0;\n                    } else {\n                        row[j] *= old_freqs[j] / new_freqs[j];\n                    }", new="                    row[j] *= old_freqs[j] / new_freqs[j];"),
     dict(id='c09-to-weight-unguarded', prop='C09', rule='R9.1', file=PWM, old="                if f == 0.0 {\n                    dst[j] = 0.0;\n                } else {\n                    dst[j] = x / f;\n                }", new="                dst[j] = x / f;"),
